@@ -50,7 +50,17 @@ def generality(km, w):
 
 
 class Fix(object):
-    """fixed bits above the active width: the same for every entry of a table"""
+    """fixed bits above the active width: the same for every entry of a table (and shared by runs of
+    consecutive tables, so that key/masks of different tables in one process can coincide)"""
+    _shared = {}
+
+    @classmethod
+    def shared(cls, rng, w, period=60):
+        f, n = cls._shared.get(w, (None, 0))
+        if f is None or n >= period:
+            f, n = cls(rng, w), 0
+        cls._shared[w] = (f, n + 1)
+        return f
 
     def __init__(self, rng, w):
         hi_mask = rng.getrandbits(32 - w) if rng.random() < 0.7 else (1 << (32 - w)) - 1
@@ -77,7 +87,7 @@ def random_table(rng, w, n, ordered_overlapping):
         kms.sort(key=lambda km: generality(km, w))      # stable: increasing generality
     else:
         rng.shuffle(kms)
-    fx = Fix(rng, w)
+    fx = Fix.shared(rng, w)
     nroutes = rng.choice((1, 2, 2, 3, 4))
     table = []
     for km in kms:
@@ -192,6 +202,26 @@ def run(chk):
         traces.append(run_methods(t, w, rng, chk))
         if len({e.route for e in t}) < len(t):
             chk._nontrivial.add(str(traces[-1]["orig"]))
+        # history: a follow-up table in the same process whose genuine entries carry the key/masks the
+        # previous minimisation produced by merging (re-minimising a minimised table, related chips)
+        if w <= 7 and rng.random() < 0.6:
+            try:
+                prev = oc_mod.minimise(list(t), None)
+            except Exception:
+                prev = []
+            t2 = [RTE(rng.choice(ROUTE_SETS[:3]), e.key, e.mask, rng.choice(SOURCE_SETS)) for e in prev]
+            extra = random_table(rng, w, rng.randint(1, 4), ordered_overlapping=True)
+            fixk, fixm = (t[0].key >> w) << w, (t[0].mask >> w) << w
+            have = {(e.key, e.mask) for e in t2}
+            for e in extra:
+                km = ((e.key & ((1 << w) - 1)) | fixk, (e.mask & ((1 << w) - 1)) | fixm)
+                if km not in have:
+                    have.add(km)
+                    t2.append(RTE(e.route, km[0], km[1], e.sources))
+            t2.sort(key=lambda e: w - bin(e.mask & ((1 << w) - 1)).count("1"))
+            if len(t2) > 1:
+                traces.append(run_methods(t2, w, rng, chk, stepped=False))
+                chk.count("follow-up tables built from earlier merge products")
     # default-route removal alone: any ordered table at all (arbitrary order, overlapping)
     for i in range(chk.pick(300, 6000)):
         w = rng.choice((3, 4, 5, 6))
